@@ -196,7 +196,10 @@ def run_item(item, workdir, paths):
         t = L.get_template(main)
         res["moddir2"] = _facts(t, ctx)
         res["moddir2"]["regenerated"] = _mtimes(mods) != stamp
-    if "uri-spellings" in paths:
+    if "uri-spellings" in paths and not any(
+        re.search(r"\.uri\b|\bU\(|\.filename\b|_template_uri|\bdescribe\(", str(text)) for text in item["files"].values()
+    ):
+        # (a program that prints a template's URI legitimately prints the spelling it was asked for)
         out = {}
         m = main.lstrip("/")
         for sp in (m, "/" + m, "//" + m, m.replace("/", "//")):
